@@ -250,7 +250,15 @@ def gen_box(rng, kind=None):
     else:
         w, z = rng.choice(YAW_WZ)
         quat = [w, 0, 0, z]
-    return {"pos": gen_pos(rng, 30, 2),
+    pos = gen_pos(rng, 30, 2)
+    if rng.random() < 0.12:
+        # beyond 100 m: the documented scale law is linear in the distance everywhere (no clamping at the 100 m reference point)
+        x, y, z = rng.choice([(96.0, 72.0, 0.0), (120.0, 50.0, 0.0), (0.0, 104.0, 0.0), (112.5, 60.0, 0.0), (144.0, 42.0, 0.0), (100.0, 0.0, 0.0),
+                              (60.0, 80.0, 0.0), (100.0, 10.5, 0.0)])
+        if rng.random() < 0.5:
+            x, y = y, x
+        pos = [rng.choice([-1, 1]) * x, rng.choice([-1, 1]) * y, z]
+    return {"pos": pos,
             "size": [lat(rng, 0.5, 4), lat(rng, 0.5, 8), rng.choice([0.0, 0.25]) if rng.random() < 0.08 else lat(rng, 0.5, 3)],
             "quat": quat}
 
@@ -765,7 +773,8 @@ def gen_scene(rng, n_obj, cfg):
     gts = []
     for _ in range(n_obj):
         g = gen_box(rng)
-        g["pos"] = gen_pos(rng, 12, 1)
+        if max(abs(g["pos"][0]), abs(g["pos"][1])) < 50:      # (gen_box places every eighth object beyond 100 m: kept)
+            g["pos"] = gen_pos(rng, 12, 1)
         g["vis"] = rng.choice(VIS + ["none", "full"])
         gts.append(g)
     if n_obj >= 2 and rng.random() < 0.3:      # overlapping boxes
